@@ -347,10 +347,14 @@ def check_main(cid, tier):
         kf = is_known(known, cid, sig)
         if kf is not None:
             e["known"] = True
-            print("KNOWN-FINDING: property=%s %s (%d runs, e.g. seed %d) %s" % (cid, sig, e["n"], e["seeds"][0],
-                                                                               kf.get("text", "")))
             continue
         reported.append((sig, e))
+    for kf in known:
+        if kf["property"] != cid:
+            continue
+        e = agg["viol"].get(kf["sig"])
+        how = "reproduced in %d runs, e.g. seed %d" % (e["n"], e["seeds"][0]) if e else "not reached by this run's seeds"
+        print("KNOWN-FINDING: property=%s %s (%s) %s" % (cid, kf["sig"], how, kf.get("text", "")))
     for sig, e in reported[:3]:
         path, err = shrink_and_confirm(cid, tier, e["seeds"][0], sig)
         if path is None:
